@@ -22,10 +22,10 @@ var c02IgnoreFields = map[string]string{
 
 func C02(ctx *Ctx) {
 	R := ctx.R
-	R.Explanation = "Sufficient condition for lock-step equivalence: (1) tables: the two opcode tables (read out of the interpreted initialisers) agree entry by entry on opcode, name, mode value, size, cycles and on a consistent bijection of routines; the four cycle-adjustment tables agree element by element; the addressing-mode constants have equal values. (2) congruent: Step of both packages is abstractly interpreted in the same 12288 cells (opcode x M,X,E x interrupt) over identically named entry symbols; merges are exact gated terms ite(cond,a,b); the two abstract transformers must be syntactically identical: return value, every same-named CPU field at return and at the dispatch call, the ordered bus-access trace (kind, address term, data term) and the ordered trace of undecided branch conditions. Declared asymmetries: the OnPC prologue of cpu65c816.Step (lookup + user callback, writes no CPU state) and the debug latches Bus.EA/Bus.Write/Bus.M."
+	R.Explanation = "Sufficient condition for lock-step equivalence: (1) tables: the two opcode tables (read out of the interpreted initialisers) agree entry by entry on opcode, name, mode value, size, cycles and on a consistent bijection of routines; the four cycle-adjustment tables agree element by element; the addressing-mode constants have equal values. (2) congruent: Step of both packages is abstractly interpreted in the same 12288 cells (opcode x M,X,E x interrupt) over identically named entry symbols; merges are exact gated terms ite(cond,a,b); the two abstract transformers must agree: return value, every same-named CPU field at return and at the dispatch call, the ordered bus-access trace (kind, address, datum, branch outcomes in force over the call stack) and the calls leaving the module. Two values agree when their terms are identical or, failing that, when both re-evaluate to the same merge-free term on every path through their gating conditions (0/1 values: the same boolean function of canonical propositions bit/zero/eq/lt), so an `if` replaced by a shift or a flag test written the other way round is not a difference. No compared value may contain a merge whose condition the interpreter could not name. Declared asymmetries: the OnPC prologue of cpu65c816.Step (lookup + user callback, writes no CPU state) and the debug latches Bus.EA/Bus.Write/Bus.M."
 	R.Trusted = []string{"go/packages + go/ssa", "absint: values are hash-consed terms over entry symbols, bus reads rd<epoch>[addr] and exact gated merges, so equal keys denote equal runtime values", "whole bus mapped (nil-backend arms pruned)", "user callbacks do not modify the CPU"}
 	R.Rule("tables", "opcode tables, cycle tables and mode constants of the two packages agree")
-	R.Rule("congruent", "for every cell the two Step functions have identical abstract results: return, CPU fields, dispatch-time fields, bus-access trace, branch-condition trace")
+	R.Rule("congruent", "for every cell the two Step functions have the same abstract result: return value, CPU fields, dispatch-time fields, the trace of bus accesses (kind, address, datum, branch outcomes in force) and the calls leaving the module; values are the same when their terms are, or when they are the same function of the entry symbols after normalisation (gated merges resolved path by path, flags as boolean functions of canonical propositions); every merge in a compared value is exact")
 	sw := cpuSweep(ctx)
 	A, B := sw.Models[cpuRels[0]], sw.Models[cpuRels[1]]
 	if A.Err != "" || B.Err != "" {
@@ -127,7 +127,7 @@ func C02(ctx *Ctx) {
 	}
 	R.Floor("cpu-cells", 2*6144)
 	bad := aggMap{}
-	nCmp := 0
+	nCmp, nSemTotal := 0, 0
 	for i := range ra {
 		x, y := ra[i], rb[i]
 		c := x.Cell
@@ -147,9 +147,35 @@ func C02(ctx *Ctx) {
 			diff("returns", fmt.Sprint(x.Returned), fmt.Sprint(y.Returned))
 			continue
 		}
-		if absint.ValKey(x.Ret) != absint.ValKey(y.Ret) {
-			diff("result", absint.ValKey(x.Ret), absint.ValKey(y.Ret))
+		// values are equal when their keys are, or when they are the same function of
+		// the entry symbols after normalisation (sameTerm)
+		nSem := 0
+		eqVal := func(vx, vy absint.Val) (bool, string) {
+			if absint.ValKey(vx) == absint.ValKey(vy) {
+				return true, ""
+			}
+			ix, okx := vx.(*absint.Int)
+			iy, oky := vy.(*absint.Int)
+			if okx && oky && ix.Lin != nil && iy.Lin != nil {
+				nSem++
+				return sameTerm(ix, x.Conds, iy, y.Conds)
+			}
+			tx, okx2 := vx.(*absint.Tuple)
+			ty, oky2 := vy.(*absint.Tuple)
+			if okx2 && oky2 && len(tx.E) == len(ty.E) {
+				for k := range tx.E {
+					if ok, why := eqValRec(tx.E[k], ty.E[k], x.Conds, y.Conds); !ok {
+						return false, why
+					}
+				}
+				return true, ""
+			}
+			return false, ""
 		}
+		if ok, why := eqVal(x.Ret, y.Ret); !ok {
+			diff("result", absint.ValKey(x.Ret)+" "+why, absint.ValKey(y.Ret))
+		}
+		inexact := hasInexactMerge(x.Ret) || hasInexactMerge(y.Ret)
 		cmpFields := func(tag string, fx, fy map[string]absint.Val) {
 			var names []string
 			for n := range fx {
@@ -165,8 +191,11 @@ func C02(ctx *Ctx) {
 					diff(tag+":"+n, "present", "missing field")
 					continue
 				}
-				if absint.ValKey(fx[n]) != absint.ValKey(vy) {
-					diff(tag+":"+n, absint.ValKey(fx[n]), absint.ValKey(vy))
+				if hasInexactMerge(fx[n]) || hasInexactMerge(vy) {
+					inexact = true
+				}
+				if ok, why := eqVal(fx[n], vy); !ok {
+					diff(tag+":"+n, absint.ValKey(fx[n])+" "+why, absint.ValKey(vy))
 				}
 			}
 			for n := range fy {
@@ -185,19 +214,75 @@ func C02(ctx *Ctx) {
 		} else {
 			for j := range x.Accesses {
 				p, q := x.Accesses[j], y.Accesses[j]
-				if p.Write != q.Write || absint.ValKey(p.Addr) != absint.ValKey(q.Addr) || absint.ValKey(p.Data) != absint.ValKey(q.Data) {
-					diff(fmt.Sprintf("bus-trace:#%d", j), accStr(p), accStr(q))
+				same := p.Write == q.Write
+				why := ""
+				if same && (p.Addr == nil) != (q.Addr == nil) {
+					same = false
+				}
+				if same && p.Addr != nil {
+					same, why = eqVal(p.Addr, q.Addr)
+				}
+				if same && (p.Data == nil) != (q.Data == nil) {
+					same = false
+				}
+				if same && p.Data != nil {
+					same, why = eqVal(p.Data, q.Data)
+					if hasInexactMerge(p.Data) || hasInexactMerge(q.Data) {
+						inexact = true
+					}
+				}
+				if !same {
+					diff(fmt.Sprintf("bus-trace:#%d", j), accStr(p)+" "+why, accStr(q))
+					break
+				}
+				// the access happens under the same branch outcomes
+				if gp, gq := pathCanon(p.Path, x.Conds), pathCanon(q.Path, y.Conds); gp != gq {
+					diff(fmt.Sprintf("bus-trace:#%d:condition", j), accStr(p)+" under "+gp, accStr(q)+" under "+gq)
 					break
 				}
 			}
 		}
-		bx, by := branchKeys(x), branchKeys(y)
-		if strings.Join(bx, ";") != strings.Join(by, ";") {
-			diff("branch-trace", strings.Join(bx, ";"), strings.Join(by, ";"))
+		// calls leaving the module, panics and fatal exits: same kinds in the same order
+		ex, ey := effectEvents(x), effectEvents(y)
+		if strings.Join(ex, ";") != strings.Join(ey, ";") {
+			diff("events", strings.Join(ex, ";"), strings.Join(ey, ";"))
+		}
+		if inexact {
+			diff("inexact-merge", "a compared value merges two computations under a condition the interpreter could not name", "undecided")
+		}
+		nSemTotal += nSem
+	}
+	R.Count("semantic-comparisons", nSemTotal)
+	R.Count("cells-compared", nCmp)
+	for _, k := range bad.keys() {
+		g := bad[k]
+		R.Fail("congruent", k, g.pos, fmt.Sprintf("opcodes %s (%d cells); e.g. %s", opSet(g.ops), g.n, g.ex))
+	}
+	// one obligation per routine pair (and one for Step's own paths: interrupts, stop)
+	perVia := map[string]int{}
+	for i := range ra {
+		via := "Step"
+		if ra[i].Dispatched != nil {
+			via = ra[i].Dispatched.Name()
+		}
+		perVia[via]++
+	}
+	badVia := map[string]bool{}
+	for k := range bad {
+		badVia[strings.SplitN(k, ":", 2)[0]] = true
+	}
+	var vias []string
+	for v := range perVia {
+		vias = append(vias, v)
+	}
+	sort.Strings(vias)
+	for _, v := range vias {
+		if !badVia[v] {
+			R.Pass("congruent", v, "", fmt.Sprintf("%d cells: same abstract transformer in both packages", perVia[v]))
 		}
 	}
-	R.Count("cells-compared", nCmp)
-	emitAgg(R, "congruent", bad, "all-cells", fmt.Sprintf("%d cells: identical abstract transformers", nCmp))
+	R.Count("routine-pairs", len(vias))
+	R.Floor("routine-pairs", 90)
 	R.Analysed["cells"] = "256 opcodes x M,X,E x 3 interrupt states, both packages, compared pairwise"
 	R.Analysed["declared_asymmetries"] = c02IgnoreFields
 }
@@ -226,6 +311,53 @@ func branchKeys(r *CellResult) []string {
 			continue // declared asymmetry: `if cb, ok := cpu.OnPC[...]; ok`
 		}
 		out = append(out, k)
+	}
+	return out
+}
+
+
+func eqValRec(vx, vy absint.Val, cx, cy map[string]*absint.Bool) (bool, string) {
+	if absint.ValKey(vx) == absint.ValKey(vy) {
+		return true, ""
+	}
+	ix, okx := vx.(*absint.Int)
+	iy, oky := vy.(*absint.Int)
+	if okx && oky && ix.Lin != nil && iy.Lin != nil {
+		return sameTerm(ix, cx, iy, cy)
+	}
+	return false, ""
+}
+
+// pathCanon renders a set of branch outcomes as canonical propositions.
+func pathCanon(path map[string]bool, conds map[string]*absint.Bool) string {
+	bc := &absint.BoolCtx{Conds: conds}
+	var out []string
+	for k, v := range path {
+		if strings.HasPrefix(k, "lookup#") || strings.HasPrefix(k, "!lookup#") {
+			continue // declared asymmetry: `if cb, ok := cpu.OnPC[...]; ok`
+		}
+		e := bc.CondExpr(k)
+		if !v {
+			e = absint.BNot(e)
+		}
+		c, _ := e.Canon()
+		out = append(out, c)
+	}
+	sort.Strings(out)
+	return strings.Join(out, " & ")
+}
+
+// effectEvents lists the events of a cell that have an effect outside the CPU state.
+func effectEvents(r *CellResult) []string {
+	var out []string
+	for _, e := range r.Events {
+		switch e.Kind {
+		case "panic", "fatal", "ext-call", "unknown-call", "callback":
+			if e.Kind == "callback" && strings.HasPrefix(e.Callee, "top:lookup#") {
+				continue // declared asymmetry: the OnPC callback of cpu65c816.Step
+			}
+			out = append(out, e.Kind+":"+e.Callee)
+		}
 	}
 	return out
 }
